@@ -587,6 +587,10 @@ pub struct C12Case {
     /// hook records the disconnection and the session has expired, 2 = recorded and still alive
     #[serde(default)]
     pub previous: Option<(u32, u8)>,
+    /// before the request: a read error ends run(), and run() is called again on the same
+    /// transport (the limit announced for this connection still holds)
+    #[serde(default)]
+    pub rerun_after_read_error: bool,
 }
 
 pub struct C12;
@@ -625,7 +629,7 @@ fn c12_op() -> BoxedStrategy<OpSpec> {
 
 const C12_R: u16 = 2;
 
-fn c12_world(m: Option<u32>, client_max: Option<u32>, prologue: u8, previous: Option<(u32, u8)>) -> Result<World, String> {
+fn c12_world(m: Option<u32>, client_max: Option<u32>, prologue: u8, previous: Option<(u32, u8)>, rerun: bool) -> Result<World, String> {
     let mut w = World::new();
     let connack = rc::Connack { maximum_packet_size: m, receive_maximum: Some(C12_R), ..Default::default() };
     let mut spec = ConnectSpec { maximum_packet_size: client_max, ..Default::default() };
@@ -652,6 +656,20 @@ fn c12_world(m: Option<u32>, client_max: Option<u32>, prologue: u8, previous: Op
         spec.clean_start = Some(how != 2);
     }
     connect_and_run_v(&mut w, spec, &connack, &WritePlan::default(), prologue)?;
+    if rerun {
+        let plan = WritePlan::default();
+        w.tick();
+        w.reader.set_err_once(std::io::ErrorKind::TimedOut);
+        settle(&mut w, &plan, false);
+        if w.run_result.is_none() {
+            return Err("run() did not return on a read error".into());
+        }
+        w.tick();
+        if !w.start_run() {
+            return Err("harness: cannot start run() again".into());
+        }
+        settle(&mut w, &plan, false);
+    }
     Ok(w)
 }
 
@@ -672,7 +690,7 @@ impl Property for C12 {
                 1 => Just(MChoice::Absent),
             ],
         )
-            .prop_map(|(op, m)| C12Case { op, m, client_max: None, history: None, prologue: 0, previous: None })
+            .prop_map(|(op, m)| C12Case { op, m, client_max: None, history: None, prologue: 0, previous: None, rerun_after_read_error: false })
             .boxed();
         let single = (s, prop_oneof![2 => Just(None), 1 => (8u32..64).prop_map(Some), 1 => Just(Some(1u32))], prologue_variant())
             .prop_map(|(mut c, cm, pv)| {
@@ -684,6 +702,12 @@ impl Property for C12 {
         let single = (single, proptest::option::weighted(0.35, (prop_oneof![Just(0u32), Just(1u32), 5u32..40, Just(100_000u32)], 0u8..3)))
             .prop_map(|(mut c, p)| {
                 c.previous = p;
+                c
+            })
+            .boxed();
+        let single = (single, prop::bool::weighted(0.2))
+            .prop_map(|(mut c, r)| {
+                c.rerun_after_read_error = r;
                 c
             })
             .boxed();
@@ -702,6 +726,7 @@ impl Property for C12 {
                 client_max: None,
                 prologue: 0,
                 previous: None,
+                rerun_after_read_error: false,
                 history: Some(Scenario { receive_max, max_packet_size: Some(m), id_offset, prologue, events }),
             });
         prop_oneof![3 => single, 1 => hist].boxed()
@@ -731,7 +756,7 @@ impl Property for C12 {
         }
         let plan = WritePlan::default();
         // (1) measure L
-        let mut a = match c12_world(None, None, 0, None) {
+        let mut a = match c12_world(None, None, 0, None, false) {
             Ok(w) => w,
             Err(e) => return Outcome::fail("HARNESS/prologue", e),
         };
@@ -764,7 +789,7 @@ impl Property for C12 {
         o.class(case.op.kind());
         o.class(format!("L-{}", match l { 0..=127 => "<=127", 128..=16383 => "<=16383", _ => ">16383" }));
         // (2) the same request under M
-        let mut w = match c12_world(m, case.client_max, case.prologue, case.previous) {
+        let mut w = match c12_world(m, case.client_max, case.prologue, case.previous, case.rerun_after_read_error) {
             Ok(w) => w,
             Err(e) => return Outcome::fail("HARNESS/prologue", e),
         };
